@@ -24,6 +24,12 @@ pub fn gap_set(ts: u8, ns: u8, hsa: u8) -> Vec<u8> {
 /// token after holding it briefly.  `newcomer`: a station inside the GAP that starts answering
 /// (as ready master) after `newcomer_after` token visits.
 pub fn gap_case(ts: u8, ns: u8, hsa: u8, g: u8, newcomer: Option<(u8, usize)>, obs: &mut Obs) -> CaseResult {
+    gap_case_ext(ts, ns, hsa, g, newcomer, None, obs)
+}
+
+/// `lose_after`: after that many token visits the successor keeps the token for good (it was
+/// lost); the station must claim a new one and then poll its WHOLE GAP at once again.
+pub fn gap_case_ext(ts: u8, ns: u8, hsa: u8, g: u8, newcomer: Option<(u8, usize)>, lose_after: Option<usize>, obs: &mut Obs) -> CaseResult {
     let mut w = World::new(ts, hsa, Baudrate::B1500000, 300, g, None);
     w.step_us = 13;
     let gap0 = gap_set(ts, ns, hsa);
@@ -44,6 +50,11 @@ pub fn gap_case(ts: u8, ns: u8, hsa: u8, g: u8, newcomer: Option<(u8, usize)>, o
     let mut claim_ns: Option<u8> = None;
     let mut last_returner = ns;
     let mut awaiting_ts: Option<(i64, u32, u8)> = None;
+    let mut lose_after = lose_after;
+    let mut reclaiming = false;
+    let mut reclaim_scan: Vec<u8> = vec![];
+    let mut reclaim_tokens = 0;
+    let mut reclaimed_at: Option<usize> = None;
     while visits.len() < want_visits {
         w.now += w.step_us;
         ensure!(w.now < t_max, "gap-timeout", "only {} token visits within the simulated time (TS={ts} NS={ns} HSA={hsa} G={g})", visits.len());
@@ -97,7 +108,10 @@ pub fn gap_case(ts: u8, ns: u8, hsa: u8, g: u8, newcomer: Option<(u8, usize)>, o
                     ensure!(sa == ts, "foreign-sa", "status request with source {sa}");
                     ensure!(da != ts, "polled-itself", "status request addressed to the own address #{ts} (NS={cur_ns} HSA={hsa})");
                     ensure!(da < hsa, "polled-beyond-hsa", "status request to #{da} with HSA {hsa}");
-                    if !seen_first_pass {
+                    if reclaiming {
+                        ensure!(reclaim_tokens >= 2, "poll-outside-visit", "status request to #{da} after the token was lost, before the station claimed a new one");
+                        reclaim_scan.push(da);
+                    } else if !seen_first_pass {
                         claim_scan.push(da);
                     } else if let Some(c) = cur.as_mut() {
                         c.push(da);
@@ -105,7 +119,7 @@ pub fn gap_case(ts: u8, ns: u8, hsa: u8, g: u8, newcomer: Option<(u8, usize)>, o
                         fail!("poll-outside-visit", "status request to #{da} while the station does not hold the token");
                     }
                     if da == cur_ns && cur_ns != ts {
-                        pending.push((end + w.bit_us(12), status_resp(ts, cur_ns, if established { 3 } else { 2 })));
+                        pending.push((end + w.bit_us(12), status_resp(ts, cur_ns, if established && !reclaiming { 3 } else { 2 })));
                     } else if newcomer_active && Some(da) == newcomer.map(|n| n.0) && da != cur_ns {
                         // the newcomer answers as a ready master: it must become the successor
                         pending.push((end + w.bit_us(12), status_resp(ts, da, 2)));
@@ -116,6 +130,24 @@ pub fn gap_case(ts: u8, ns: u8, hsa: u8, g: u8, newcomer: Option<(u8, usize)>, o
                 RefFrame::Token { da, sa } => {
                     ensure!(sa == ts, "foreign-sa", "token with source {sa}");
                     own_tokens += 1;
+                    if reclaiming {
+                        if da == ts {
+                            reclaim_tokens += 1;
+                            continue;
+                        }
+                        // first pass after the new claim: the scan in between must have covered the whole GAP
+                        // (the successor is still known, so the GAP ends before it and it is not polled itself)
+                        let want: Vec<u8> = gap_set(ts, cur_ns, hsa);
+                        if reclaim_scan != want {
+                            let b = w.bus.0.borrow();
+                            let tail: String = if std::env::var("PBVERIF_DUMP").is_ok() { b.trace.iter().rev().take(24).rev().map(|r| format!("\n  {} ns node{} {}", r.start_ns, r.sender, crate::props::c09::hex(&r.bytes))).collect() } else { String::new() };
+                            fail!("reclaim-scan", "after losing and re-claiming the token the station polled {:?} before passing it on, expected the whole GAP {:?} (TS={ts} NS={cur_ns} HSA={hsa} G={g}){}", reclaim_scan, want, tail);
+                        }
+                        ensure!(da == cur_ns, "token-to-wrong-station", "token passed to #{da} after the re-claim but the responding successor is #{cur_ns}");
+                        reclaiming = false;
+                        reclaimed_at = Some(visits.len());
+                        obs.label("token-lost-and-reclaimed");
+                    }
                     if da == ts {
                         if !seen_first_pass {
                             // the two claim tokens come first; a self-pass after the scan starts the visits
@@ -140,6 +172,17 @@ pub fn gap_case(ts: u8, ns: u8, hsa: u8, g: u8, newcomer: Option<(u8, usize)>, o
                             seen_first_pass = true;
                         } else if let Some(c) = cur.take() {
                             visits.push((c, cur_ns));
+                        }
+                        if lose_after == Some(visits.len()) && cur_ns != ts {
+                            // the token gets lost now: the successor takes it (it is heard once) and
+                            // then dies while holding it - nobody returns it
+                            pending.push((end + w.bit_us(60), status_req(100, cur_ns)));
+                            lose_after = None;
+                            reclaiming = true;
+                            reclaim_scan.clear();
+                            reclaim_tokens = 0;
+                            cur = None;
+                            continue;
                         }
                         // the other masters hold the token briefly and pass it on until it is back
                         let mut chain: Vec<u8> = vec![cur_ns];
@@ -189,7 +232,7 @@ pub fn gap_case(ts: u8, ns: u8, hsa: u8, g: u8, newcomer: Option<(u8, usize)>, o
         }
     }
     // sweeps (judged while the successor is unchanged)
-    let stable: Vec<Option<u8>> = match newcomer_joined_at {
+    let stable: Vec<Option<u8>> = match newcomer_joined_at.or(reclaimed_at) {
         None => flat.iter().map(|x| x.0).collect(),
         Some(k) => flat.iter().skip(k + 1).map(|x| x.0).collect(),
     };
@@ -231,7 +274,7 @@ pub fn gap_case(ts: u8, ns: u8, hsa: u8, g: u8, newcomer: Option<(u8, usize)>, o
             first = false;
         }
     }
-    if !gap.is_empty() && newcomer_joined_at.is_none() {
+    if !gap.is_empty() && newcomer_joined_at.is_none() && reclaimed_at.is_none() {
         ensure!(sweeps >= 1, "gap-never-swept", "no complete sweep of the GAP {:?} in {} token visits: {:?}", gap, stable.len(), stable);
     }
     if let Some((nc, after)) = newcomer {
@@ -304,10 +347,43 @@ fn status_case(t: &mut Tape, obs: &mut Obs) -> CaseResult {
     let mut clean_passes = 0usize;
     let mut wraps = 0usize;
     let (mut notready, mut ready, mut inring, mut foreign) = (0u64, 0u64, 0u64, 0u64);
+    let mut stalled = 0u64;
     for _ in 0..steps {
         w.wait_idle(40, &mut ());
         if w.holds_token() || w.state_name() == "CheckTokenPass" {
             break; // the station got / claimed a token: other rules apply
+        }
+        if t.chance(1, 12) {
+            // The station is not polled for more than a slot time while a status request for it and
+            // then another telegram arrive: the requester has given up long ago, an answer now
+            // would come (far) later than the slot time and hit somebody else's transaction.
+            let ps = w.fdl.inspect_token_ring().previous_station();
+            let requester = if t.bool() { *t.pick(&ring) } else { ps };
+            if requester == ts {
+                continue;
+            }
+            let idx = w.trace_len();
+            w.bus.inject(ENV, w.now, &status_req(ts, requester));
+            w.now = w.last_end_us() + w.bit_us(320 + t.below(200) as i64);
+            let sa = ring[pos % ring.len()];
+            let da = ring[(pos + 1) % ring.len()];
+            let second = if t.bool() {
+                pos += 1;
+                clean_passes += 1;
+                if da <= sa {
+                    wraps += 1;
+                }
+                token(sa, da)
+            } else {
+                status_req((ts + 1) % hsa, requester)
+            };
+            w.bus.inject(ENV, w.now, &second);
+            w.now = w.last_end_us() + 1;
+            w.step(w.bit_us(400));
+            let sent = w.frames_since(idx);
+            ensure!(sent.is_empty(), "status-reply-late", "station answered a status request more than a slot time late, after another telegram had already followed it: {:?}", sent.iter().map(|x| x.1.clone()).collect::<Vec<_>>());
+            stalled += 1;
+            continue;
         }
         if t.chance(6, 10) {
             let sa = ring[pos % ring.len()];
@@ -369,6 +445,7 @@ fn status_case(t: &mut Tape, obs: &mut Obs) -> CaseResult {
     obs.count("replies_ready", ready);
     obs.count("replies_in_ring", inring);
     obs.count("foreign_requests_ignored", foreign);
+    obs.count("expired_requests_not_answered", stalled);
     if notready + ready + inring > 0 {
         obs.nontrivial(fingerprint(&(ts, hsa, &ring, notready, ready, inring)));
     }
@@ -414,17 +491,33 @@ pub fn property() -> Property {
                 obs.sample(|| json!({"ts": ts, "ns": ns, "hsa": hsa, "gap_factor": g, "newcomer": nc, "appears_after_visits": after}));
                 gap_case(ts, ns, hsa, g, Some((nc, after)), obs)
             }),
+            SubCheck::tape("gap_reclaim", "the token is lost after some visits (mid-sweep or during the pause): after the re-claim the whole GAP must be polled at once again", |t, obs| {
+                let hsa = 3 + t.below(24) as u8;
+                let ts = t.below(u64::from(hsa)) as u8;
+                let mut ns = t.below(u64::from(hsa)) as u8;
+                if ns == ts {
+                    ns = (ts + 1 + t.below(u64::from(hsa) - 1) as u8) % hsa;
+                }
+                let g = 1 + t.below(5) as u8;
+                let glen = gap_set(ts, ns, hsa).len();
+                let after = 1 + t.below((2 * (glen + g as usize + 3)) as u64) as usize;
+                obs.nontrivial(fingerprint(&(ts, ns, hsa, g, after)));
+                obs.sample(|| json!({"ts": ts, "ns": ns, "hsa": hsa, "gap_factor": g, "token_lost_after_visits": after}));
+                gap_case_ext(ts, ns, hsa, g, None, Some(after), obs)
+            }),
             SubCheck::tape("status_replies", "listening / in-ring histories with status requests", status_case),
         ],
         plan: |tier| match tier {
             Tier::Quick => vec![
                 Step::Enumerate { kind: "gap_triples", count: 2 * triples_up_to(40) },
                 Step::Pbt { kind: "gap_newcomer", cases: 600, max_len: 16 },
+                Step::Pbt { kind: "gap_reclaim", cases: 600, max_len: 16 },
                 Step::Pbt { kind: "status_replies", cases: 3000, max_len: 260 },
             ],
             Tier::Thorough => vec![
                 Step::Enumerate { kind: "gap_triples", count: 2 * triples_up_to(126) },
                 Step::Pbt { kind: "gap_newcomer", cases: 20_000, max_len: 16 },
+                Step::Pbt { kind: "gap_reclaim", cases: 20_000, max_len: 16 },
                 Step::Pbt { kind: "status_replies", cases: 100_000, max_len: 260 },
             ],
         },
